@@ -62,13 +62,62 @@ public:
     std::string printVariable(const VariablePtr &variable, IdList &idList, bool autoIds);
 };
 
+
+/**
+ * @brief Escape a string for use as the value of an XML attribute.
+ *
+ * The document is assembled by concatenation and then handed to libxml2, so every
+ * user-supplied string that is written between double quotes has to be escaped:
+ * the markup characters become entity references, and tab, line feed and
+ * carriage return become character references (a literal one would be normalised to a
+ * space by the XML reader).
+ *
+ * @param in The string to escape.
+ *
+ * @return The escaped string.
+ */
+std::string escapeAttributeValue(const std::string &in)
+{
+    std::string out;
+    out.reserve(in.size());
+    for (const char c : in) {
+        switch (c) {
+        case '&':
+            out += "&amp;";
+            break;
+        case '<':
+            out += "&lt;";
+            break;
+        case '>':
+            out += "&gt;";
+            break;
+        case '"':
+            out += "&quot;";
+            break;
+        case '\t':
+            out += "&#9;";
+            break;
+        case '\n':
+            out += "&#10;";
+            break;
+        case '\r':
+            out += "&#13;";
+            break;
+        default:
+            out += c;
+            break;
+        }
+    }
+    return out;
+}
+
 std::string printMapVariables(const VariablePairPtr &variablePair, IdList &idList, bool autoIds)
 {
-    std::string mapVariables = "<map_variables variable_1=\"" + variablePair->variable1()->name() + "\""
-                               + " variable_2=\"" + variablePair->variable2()->name() + "\"";
+    std::string mapVariables = "<map_variables variable_1=\"" + escapeAttributeValue(variablePair->variable1()->name()) + "\""
+                               + " variable_2=\"" + escapeAttributeValue(variablePair->variable2()->name()) + "\"";
     std::string mappingId = Variable::equivalenceMappingId(variablePair->variable1(), variablePair->variable2());
     if (!mappingId.empty()) {
-        mapVariables += " id=\"" + mappingId + "\"";
+        mapVariables += " id=\"" + escapeAttributeValue(mappingId) + "\"";
     } else if (autoIds) {
         mapVariables += " id=\"" + makeUniqueId(idList) + "\"";
     }
@@ -115,12 +164,12 @@ std::string printConnections(const ComponentMap &componentMap, const VariableMap
             ++componentMapIndex2;
         }
         // Serialise out the new connection.
-        connections += "<connection component_1=\"" + currentComponent1->name() + "\"";
+        connections += "<connection component_1=\"" + escapeAttributeValue(currentComponent1->name()) + "\"";
         if (currentComponent2 != nullptr) {
-            connections += " component_2=\"" + currentComponent2->name() + "\"";
+            connections += " component_2=\"" + escapeAttributeValue(currentComponent2->name()) + "\"";
         }
         if (!connectionId.empty()) {
-            connections += " id=\"" + connectionId + "\"";
+            connections += " id=\"" + escapeAttributeValue(connectionId) + "\"";
         } else if (autoIds) {
             connections += " id=\"" + makeUniqueId(idList) + "\"";
         }
@@ -209,10 +258,10 @@ std::string Printer::PrinterImpl::printUnits(const UnitsPtr &units, IdList &idLi
         repr += "<units";
         std::string unitsName = units->name();
         if (!unitsName.empty()) {
-            repr += " name=\"" + unitsName + "\"";
+            repr += " name=\"" + escapeAttributeValue(unitsName) + "\"";
         }
         if (!units->id().empty()) {
-            repr += " id=\"" + units->id() + "\"";
+            repr += " id=\"" + escapeAttributeValue(units->id()) + "\"";
         } else if (autoIds) {
             repr += " id=\"" + makeUniqueId(idList) + "\"";
         }
@@ -234,11 +283,11 @@ std::string Printer::PrinterImpl::printUnits(const UnitsPtr &units, IdList &idLi
                     repr += " multiplier=\"" + convertToString(multiplier) + "\"";
                 }
                 if (!prefix.empty()) {
-                    repr += " prefix=\"" + prefix + "\"";
+                    repr += " prefix=\"" + escapeAttributeValue(prefix) + "\"";
                 }
-                repr += " units=\"" + reference + "\"";
+                repr += " units=\"" + escapeAttributeValue(reference) + "\"";
                 if (!id.empty()) {
-                    repr += " id=\"" + id + "\"";
+                    repr += " id=\"" + escapeAttributeValue(id) + "\"";
                 } else if (autoIds) {
                     repr += " id=\"" + makeUniqueId(idList) + "\"";
                 }
@@ -262,10 +311,10 @@ std::string Printer::PrinterImpl::printComponent(const ComponentPtr &component, 
         repr += "<component";
         std::string componentName = component->name();
         if (!componentName.empty()) {
-            repr += " name=\"" + componentName + "\"";
+            repr += " name=\"" + escapeAttributeValue(componentName) + "\"";
         }
         if (!component->id().empty()) {
-            repr += " id=\"" + component->id() + "\"";
+            repr += " id=\"" + escapeAttributeValue(component->id()) + "\"";
         } else if (autoIds) {
             repr += " id=\"" + makeUniqueId(idList) + "\"";
         }
@@ -312,10 +361,10 @@ std::string Printer::PrinterImpl::printEncapsulation(const ComponentPtr &compone
     std::string componentName = component->name();
     std::string repr = "<component_ref";
     if (!componentName.empty()) {
-        repr += " component=\"" + componentName + "\"";
+        repr += " component=\"" + escapeAttributeValue(componentName) + "\"";
     }
     if (!component->encapsulationId().empty()) {
-        repr += " id=\"" + component->encapsulationId() + "\"";
+        repr += " id=\"" + escapeAttributeValue(component->encapsulationId()) + "\"";
     } else if (autoIds) {
         repr += " id=\"" + makeUniqueId(idList) + "\"";
     }
@@ -344,19 +393,19 @@ std::string Printer::PrinterImpl::printVariable(const VariablePtr &variable, IdL
     std::string initial_value = variable->initialValue();
     std::string interface_type = variable->interfaceType();
     if (!name.empty()) {
-        repr += " name=\"" + name + "\"";
+        repr += " name=\"" + escapeAttributeValue(name) + "\"";
     }
     if (!units.empty()) {
-        repr += " units=\"" + units + "\"";
+        repr += " units=\"" + escapeAttributeValue(units) + "\"";
     }
     if (!initial_value.empty()) {
-        repr += " initial_value=\"" + initial_value + "\"";
+        repr += " initial_value=\"" + escapeAttributeValue(initial_value) + "\"";
     }
     if (!interface_type.empty()) {
-        repr += " interface=\"" + interface_type + "\"";
+        repr += " interface=\"" + escapeAttributeValue(interface_type) + "\"";
     }
     if (!id.empty()) {
-        repr += " id=\"" + id + "\"";
+        repr += " id=\"" + escapeAttributeValue(id) + "\"";
     } else if (autoIds) {
         repr += " id=\"" + makeUniqueId(idList) + "\"";
     }
@@ -373,7 +422,7 @@ std::string Printer::PrinterImpl::printResetChild(const std::string &childLabel,
     if (!childId.empty() || !math.empty()) {
         repr += "<" + childLabel;
         if (!childId.empty()) {
-            repr += " id=\"" + childId + "\"";
+            repr += " id=\"" + escapeAttributeValue(childId) + "\"";
         } else if (autoIds) {
             repr += " id=\"" + makeUniqueId(idList) + "\"";
         }
@@ -397,16 +446,16 @@ std::string Printer::PrinterImpl::printReset(const ResetPtr &reset, IdList &idLi
     bool hasChild = false;
 
     if (variable) {
-        repr += " variable=\"" + variable->name() + "\"";
+        repr += " variable=\"" + escapeAttributeValue(variable->name()) + "\"";
     }
     if (testVariable) {
-        repr += " test_variable=\"" + testVariable->name() + "\"";
+        repr += " test_variable=\"" + escapeAttributeValue(testVariable->name()) + "\"";
     }
     if (reset->isOrderSet()) {
         repr += " order=\"" + convertToString(reset->order()) + "\"";
     }
     if (!rid.empty()) {
-        repr += " id=\"" + rid + "\"";
+        repr += " id=\"" + escapeAttributeValue(rid) + "\"";
     } else if (autoIds) {
         repr += " id=\"" + makeUniqueId(idList) + "\"";
     }
@@ -458,9 +507,9 @@ std::string Printer::PrinterImpl::printImports(const ModelPtr &model, IdList &id
         }
     }
     for (auto &importSource : collatedImportSources) {
-        repr += "<import xmlns:xlink=\"http://www.w3.org/1999/xlink\" xlink:href=\"" + importSource->url() + "\"";
+        repr += "<import xmlns:xlink=\"http://www.w3.org/1999/xlink\" xlink:href=\"" + escapeAttributeValue(importSource->url()) + "\"";
         if (!importSource->id().empty()) {
-            repr += " id=\"" + importSource->id() + "\"";
+            repr += " id=\"" + escapeAttributeValue(importSource->id()) + "\"";
         } else if (autoIds) {
             repr += " id=\"" + makeUniqueId(idList) + "\"";
         }
@@ -468,9 +517,9 @@ std::string Printer::PrinterImpl::printImports(const ModelPtr &model, IdList &id
 
         for (const UnitsPtr &units : importedUnits) {
             if (units->importSource() == importSource) {
-                repr += "<units units_ref=\"" + units->importReference() + "\" name=\"" + units->name() + "\"";
+                repr += "<units units_ref=\"" + escapeAttributeValue(units->importReference()) + "\" name=\"" + escapeAttributeValue(units->name()) + "\"";
                 if (!units->id().empty()) {
-                    repr += " id=\"" + units->id() + "\"";
+                    repr += " id=\"" + escapeAttributeValue(units->id()) + "\"";
                 } else if (autoIds) {
                     repr += " id=\"" + makeUniqueId(idList) + "\"";
                 }
@@ -479,9 +528,9 @@ std::string Printer::PrinterImpl::printImports(const ModelPtr &model, IdList &id
         }
         for (const ComponentPtr &component : importedComponents) {
             if (component->importSource() == importSource) {
-                repr += "<component component_ref=\"" + component->importReference() + "\" name=\"" + component->name() + "\"";
+                repr += "<component component_ref=\"" + escapeAttributeValue(component->importReference()) + "\" name=\"" + escapeAttributeValue(component->name()) + "\"";
                 if (!component->id().empty()) {
-                    repr += " id=\"" + component->id() + "\"";
+                    repr += " id=\"" + escapeAttributeValue(component->id()) + "\"";
                 } else if (autoIds) {
                     repr += " id=\"" + makeUniqueId(idList) + "\"";
                 }
@@ -532,10 +581,10 @@ std::string Printer::printModel(const ModelPtr &model, bool autoIds)
     std::string repr;
     repr += "<?xml version=\"1.0\" encoding=\"UTF-8\"?><model xmlns=\"http://www.cellml.org/cellml/2.0#\"";
     if (!model->name().empty()) {
-        repr += " name=\"" + model->name() + "\"";
+        repr += " name=\"" + escapeAttributeValue(model->name()) + "\"";
     }
     if (!model->id().empty()) {
-        repr += " id=\"" + model->id() + "\"";
+        repr += " id=\"" + escapeAttributeValue(model->id()) + "\"";
     } else if (autoIds) {
         repr += " id=\"" + makeUniqueId(idList) + "\"";
     }
@@ -575,7 +624,7 @@ std::string Printer::printModel(const ModelPtr &model, bool autoIds)
     if (!componentEncapsulation.empty()) {
         repr += "<encapsulation";
         if (!model->encapsulationId().empty()) {
-            repr += " id=\"" + model->encapsulationId() + "\">";
+            repr += " id=\"" + escapeAttributeValue(model->encapsulationId()) + "\">";
         } else if (autoIds) {
             repr += " id=\"" + makeUniqueId(idList) + "\">";
         } else {
